@@ -37,7 +37,9 @@ type dMsg struct {
 	delivered int
 	pos       int
 	delivTick int // tick of the (first) delivery
-	invStep   int // scheduler step at invocation
+	invOwn    int   // the calling task's own step count at invocation
+	invNow    int64 // simulated time at invocation
+	task      *zsim.Task
 }
 
 const (
@@ -102,6 +104,7 @@ type dRun struct {
 	tap        *dTap
 	sinkErrs   int
 	sinkClosed int // tick at which Close of the wrapped writer was called
+	closeNow   int64
 }
 
 func (r *dRun) on(p string) bool { return r.prop == p }
@@ -123,7 +126,9 @@ func (t *dTap) Write(p []byte) (int, error) {
 	m.data = append([]byte(nil), p...)
 	r.byData[string(m.data)] = m
 	m.inv = r.t()
-	m.invStep = zsim.S.StepNo()
+	m.task = zsim.Cur()
+	m.invOwn = m.task.Steps
+	m.invNow = zsim.S.Now()
 	r.started++
 	if o := r.started - r.sinkCalls; o > r.maxOut {
 		r.maxOut = o
@@ -147,6 +152,7 @@ func (t *dTap) Close() error {
 		return nil
 	}
 	r.closeInv = r.t()
+	r.closeNow = zsim.S.Now()
 	zsim.Log("Close invoked")
 	err := r.dw.Close()
 	if zsim.Dying() {
@@ -609,25 +615,30 @@ func (diodeWorld) Run(prop string, ch *zsim.Choices, trace bool) *RunResult {
 		zsim.Settle()
 		r.settled = true
 	}
-	s = zsim.Run(zsim.Config{MaxSteps: 30000, Trace: trace}, ch, main)
+	s = zsim.Run(zsim.Config{MaxSteps: 60000, Trace: trace}, ch, main)
 	return finish(s, ch, r.summary(), func() *zsim.Violation { return r.post(s) })
 }
 
 // post is the history oracle, evaluated after the run.
 func (r *dRun) post(s *zsim.Sim) *zsim.Violation {
 	if s.Truncated {
-		// the step / simulated-time cap was hit. On code where the properties hold no run
-		// comes near the caps (a Write is a few dozen steps); a Write or a Close that is
-		// still in flight after thousands of steps is busy-waiting or sleeping in a loop.
+		// the step / simulated-time cap was hit. Hitting a cap is inconclusive in general
+		// (a step-hungry but correct implementation, or a task starved by an unfair
+		// schedule, must not be blamed), except for two sound signatures: the calling task
+		// itself executed thousands of steps inside one Write (it is busy-waiting), or tens
+		// of simulated seconds passed with the call in flight (the clock only advances when
+		// nothing is runnable, so the caller was asleep or blocked all that time, in a world
+		// whose longest legitimate delay is about one second).
+		const simBudget = int64(30 * time.Second)
 		if r.on("C10") {
 			for _, m := range r.msgs {
-				if m.inv >= 0 && m.ret < 0 && s.StepNo()-m.invStep > 5000 {
-					return viol("C10.write_blocked", "Write(%s) has not returned after %d scheduler steps and %v of simulated time (busy-waiting or sleeping for the consumer?); scenario %s", m.id, s.StepNo()-m.invStep, time.Duration(s.Now()), scNames[r.scenario])
+				if m.inv >= 0 && m.ret < 0 && (m.task.Steps-m.invOwn > 3000 || s.Now()-m.invNow > simBudget) {
+					return viol("C10.write_blocked", "Write(%s) has not returned after %d steps of its own goroutine and %v of simulated time (busy-waiting or sleeping for the consumer?); scenario %s", m.id, m.task.Steps-m.invOwn, time.Duration(s.Now()-m.invNow), scNames[r.scenario])
 				}
 			}
 		}
-		if r.on("C12") && r.closeInv > 0 && r.closeRet == 0 && !s.Exited {
-			return viol("C12.close_blocked", "Close has not returned when the run hit its cap of %d steps / %v simulated time; tasks: %s", s.StepNo(), time.Duration(s.Now()), s.EndInfo)
+		if r.on("C12") && r.closeInv > 0 && r.closeRet == 0 && !s.Exited && s.Now()-r.closeNow > simBudget {
+			return viol("C12.close_blocked", "Close has not returned %v of simulated time after it was called (run capped at %d steps); tasks: %s", time.Duration(s.Now()-r.closeNow), s.StepNo(), s.EndInfo)
 		}
 		return nil
 	}
